@@ -599,20 +599,71 @@ fn observe(w: &World, case: &str, st: &mut Stats) {
                 _ => "na".to_string(),
             };
             println!("{} => {} ser={} std={}", case, ts.as_ref().map(|s| hex(s.as_bytes())).unwrap_or("PANIC".into()), ser, std);
-            // direct oracle: numbers are printed as std prints them, enum items by their table text; serialize_internal
-            // writes the same text for everything but strings
-            if let Ok(t) = &ts {
-                let want = match &v {
-                    CharacterData::Enum(e) => e.to_str().to_string(),
-                    CharacterData::String(s) => s.clone(),
-                    CharacterData::UnsignedInteger(n) => n.to_string(),
-                    CharacterData::Float(x) => x.to_string(),
-                };
-                if *t != want {
-                    fail(st, "to-string", case, &format!("got {:?} expected {:?}", t, want));
+            // direct oracle = the PROPERTY, not the spelling: the text written by to_string / serialize_internal, parsed with
+            // the same value type (CharacterData::parse with the real Float / UnsignedInteger spec; std when the hook is not
+            // compiled in), must give the same value AT BIT LEVEL (NaN: any NaN).  Which text is written ("inf" or "INF",
+            // "1e21" or "1000000000000000000000") is left to the model correspondence.  Enum items and strings have one
+            // defined text (table entry / the string itself).
+            let reparse = |text: &str| -> Option<CharacterData> {
+                let kind_spec = w.specs.iter().find(|sp| match (&v, **sp) {
+                    (CharacterData::Float(_), CharacterDataSpec::Float) => true,
+                    (CharacterData::UnsignedInteger(_), CharacterDataSpec::UnsignedInteger) => true,
+                    _ => false,
+                });
+                match (kind_spec, hook::AVAILABLE) {
+                    (Some(sp), true) => g(|| hook::parse(text, sp, AutosarVersion::LATEST)).unwrap_or(None),
+                    _ => match &v {
+                        CharacterData::Float(_) => text.parse::<f64>().ok().map(CharacterData::Float),
+                        CharacterData::UnsignedInteger(_) => text.parse::<u64>().ok().map(CharacterData::UnsignedInteger),
+                        _ => None,
+                    },
                 }
-                if hook::AVAILABLE && !matches!(v, CharacterData::String(_)) && ser != hex(t.as_bytes()) {
-                    fail(st, "serialize", case, "serialize_internal differs from to_string for a non-string value");
+            };
+            let numeric = matches!(v, CharacterData::Float(_) | CharacterData::UnsignedInteger(_));
+            if let CharacterData::Float(x) = &v {
+                st.class(if x.is_nan() {
+                    "format:float-nan"
+                } else if x.is_infinite() {
+                    "format:float-inf"
+                } else if *x == 0.0 {
+                    if x.is_sign_negative() { "format:float-negative-zero" } else { "format:float-zero" }
+                } else if x.is_subnormal() {
+                    "format:float-subnormal"
+                } else if x.abs() == f64::MAX {
+                    "format:float-max-finite"
+                } else {
+                    "format:float-normal"
+                });
+            }
+            if let Ok(t) = &ts {
+                if numeric {
+                    let back = reparse(t);
+                    if !back.as_ref().map(|b| same_value(b, &v)).unwrap_or(false) {
+                        fail(st, "to-string-roundtrip", case, &format!("to_string = {:?}, parsed back with the same value type as {:?}", t, back.as_ref().map(value_s)));
+                    }
+                } else {
+                    let want = match &v {
+                        CharacterData::Enum(e) => e.to_str().to_string(),
+                        CharacterData::String(s) => s.clone(),
+                        _ => unreachable!(),
+                    };
+                    if *t != want {
+                        fail(st, "to-string", case, &format!("got {:?} expected {:?}", t, want));
+                    }
+                }
+            }
+            if hook::AVAILABLE {
+                if let Ok(stext) = g(|| hook::ser(&v)) {
+                    if numeric {
+                        let back = reparse(&stext);
+                        if !back.as_ref().map(|b| same_value(b, &v)).unwrap_or(false) {
+                            fail(st, "serialize-roundtrip", case, &format!("serialize_internal = {:?}, parsed back with the same value type as {:?}", stext, back.as_ref().map(value_s)));
+                        }
+                    } else if let CharacterData::Enum(e) = &v {
+                        if stext != e.to_str() {
+                            fail(st, "serialize", case, "serialize_internal of an enum item is not its table text");
+                        }
+                    }
                 }
             }
             if let (Ok(ts), CharacterData::UnsignedInteger(n)) = (&ts, &v) {
